@@ -70,6 +70,29 @@ def _inst_catD(app):
             z3.Implies(m >= 1, app == z3.Concat(catD(lid, s, m - 1), D_data(lid, s + m - 1)))]
 
 
+# per-stream FileSync record log (history variable defined by AdbDevice._filesync_read)
+FS_id = z3.Function('FS_id', IntS, IntS, Bytes)
+FS_w = z3.Function('FS_w', IntS, IntS, IntS, IntS)       # (lid, record, word index) -> header word
+FS_data = z3.Function('FS_data', IntS, IntS, Bytes)
+catFS = z3.Function('catFS', IntS, IntS, IntS, Bytes)    # concatenation of FS_data(lid, j) for j in [s, s+m)
+
+
+def _inst_catFS(app):
+    lid, s, m = app.arg(0), app.arg(1), app.arg(2)
+    return [z3.Implies(m <= 0, app == EMPTY),
+            z3.Implies(m >= 1, app == z3.Concat(catFS(lid, s, m - 1), FS_data(lid, s + m - 1)))]
+
+
+# per-stream sync byte stream (history variable defined by AdbDevice._read_until as WRTE payloads arrive):
+# SB(lid, a, b) = the bytes at positions [a, b) of the concatenation of all WRTE payloads delivered on stream lid
+SB = z3.Function('SB', IntS, IntS, IntS, Bytes)
+
+
+def _inst_SB(app):
+    a, b = app.arg(1), app.arg(2)
+    return [z3.Length(app) == z3.If(b >= a, b - a, 0)]
+
+
 rep = z3.Function('rep', Bytes, IntS, Bytes)      # b repeated n times
 
 
@@ -80,11 +103,47 @@ def _inst_rep(app):
 
 
 INSTANCES = {'le32': _inst_le32, 'unle32': _inst_unle32, 'bsum': _inst_bsum, 'zeros': _inst_zeros,
-             'decimal': _inst_decimal, 'catD': _inst_catD, 'rep': _inst_rep}
+             'decimal': _inst_decimal, 'catD': _inst_catD, 'rep': _inst_rep, 'catFS': _inst_catFS, 'SB': _inst_SB}
 # catD's unfolding is added only on request (it creates new catD terms): see axioms_for(..., unfold=...)
 
 EXTRA_INSTANCES = {}      # contracts may register more (name -> fn(app) -> [formulas])
 USED_AXIOMS = set()
+
+
+def _split_instances(apps):
+    """Concatenation split for catD / catFS / rep: for two applications t1 = f(p, s, a), t2 = f(p, s', b) in a query,
+         s' == s + a  /\ a >= 0 /\ b >= 0   ==>   f(p, s, a + b) == t1 ++ t2
+    (lemma proved by induction from the unfolding axioms: lemmas spec/cat-split-base, spec/cat-split-step)."""
+    out = []
+    groups = {}
+    for t in apps:
+        n = t.decl().name()
+        if n in ('catD', 'catFS', 'rep'):
+            groups.setdefault(n, []).append(t)
+    sbs = [t for t in apps if t.decl().name() == 'SB']
+    for t1 in sbs[:10]:
+        for t2 in sbs[:10]:
+            if t1.get_id() != t2.get_id():
+                l1, a, b = t1.arg(0), t1.arg(1), t1.arg(2)
+                l2, b2, c = t2.arg(0), t2.arg(1), t2.arg(2)
+                out.append(z3.Implies(z3.And(l1 == l2, b == b2, a <= b, b <= c), SB(l1, a, c) == z3.Concat(t1, t2)))
+    for n, ts in groups.items():
+        if len(ts) > 8:
+            ts = ts[:8]
+        for t1 in ts:
+            for t2 in ts:
+                if t1.get_id() == t2.get_id():
+                    continue
+                if n == 'rep':
+                    b1, a = t1.arg(0), t1.arg(1)
+                    b2, b = t2.arg(0), t2.arg(1)
+                    out.append(z3.Implies(z3.And(b1 == b2, a >= 0, b >= 0), rep(b1, a + b) == z3.Concat(t1, t2)))
+                else:
+                    f = t1.decl()
+                    l1, s1, a = t1.arg(0), t1.arg(1), t1.arg(2)
+                    l2, s2, b = t2.arg(0), t2.arg(1), t2.arg(2)
+                    out.append(z3.Implies(z3.And(l1 == l2, s2 == s1 + a, a >= 0, b >= 0), f(l1, s1, a + b) == z3.Concat(t1, t2)))
+    return out
 
 
 def axioms_for(formulas, rounds=2):
@@ -119,6 +178,11 @@ def axioms_for(formulas, rounds=2):
         for a in apps:
             USED_AXIOMS.add(a.decl().name())
             new.extend(table[a.decl().name()](a))
+        if _ == 0:
+            sp = _split_instances(apps)
+            if sp:
+                USED_AXIOMS.add('cat-split')
+            new.extend(sp)
         out.extend(new)
         frontier = new
         if not new:
